@@ -91,6 +91,9 @@ type Script struct {
 	AuthErr     []Decision   `json:"auth_err,omitempty"` // decision of Auth(mech) itself
 	SASL        []SASLScript `json:"sasl,omitempty"`
 	LogoutErr   bool         `json:"logout_err,omitempty"`
+	// GateStart parks the library's BDAT delivery goroutine on a harness gate
+	// ("start<n>") before it calls the backend (needs the verif hook).
+	GateStart bool `json:"gate_start,omitempty"`
 	// DefaultData is used when Data is exhausted (zero value: read all, accept).
 	DefaultData *DataPlan `json:"default_data,omitempty"`
 }
@@ -182,6 +185,7 @@ type Backend struct {
 	nData    int
 	nAuth    int
 	nSASL    int
+	nStart   int
 	gates    map[string]*gate
 	openAll  bool
 	inflight int // callbacks that have begun and not ended
@@ -301,6 +305,19 @@ func (b *Backend) CloseGatesAgain() {
 	b.hub.mu.Lock()
 	b.openAll = false
 	b.hub.mu.Unlock()
+}
+
+// bdatStart is called (through the library's verif hook) by the goroutine
+// that delivers a chunked message, before it calls Data / LMTPData.
+func (b *Backend) bdatStart() {
+	if !b.script.GateStart {
+		return
+	}
+	b.hub.mu.Lock()
+	n := b.nStart
+	b.nStart++
+	b.hub.mu.Unlock()
+	b.waitGate(fmt.Sprintf("start%d", n))
 }
 
 func pick(list []Decision, i int) Decision {
